@@ -113,10 +113,26 @@ class D(Driver):
         cmd = [sys.executable, "-B", "-m", "picomon.c17child"]
         if self.strace:
             cmd = [self.strace, "-f", "-qq", "-e", "trace=openat,open,connect", "-o", trace] + cmd
+        # own session, so that a hanging conversion is killed together with the strace that traces it
+        # (killing strace alone detaches and leaves the child spinning)
+        pr = subprocess.Popen(cmd, stdin=subprocess.PIPE, stdout=subprocess.PIPE, stderr=subprocess.PIPE, text=True, env=env, cwd=bootstrap.VERIF_DIR, start_new_session=True)
         try:
-            p = subprocess.run(cmd, input=json.dumps(job), capture_output=True, text=True, timeout=timeout, env=env, cwd=bootstrap.VERIF_DIR)
+            so, se = pr.communicate(json.dumps(job), timeout=timeout)
         except subprocess.TimeoutExpired:
+            import signal
+
+            try:
+                os.killpg(pr.pid, signal.SIGKILL)
+            except ProcessLookupError:
+                pass
+            try:
+                pr.communicate(timeout=10)
+            except Exception:
+                pass
             return None, "", trace
+
+        class p:  # noqa
+            stdout, stderr = so, se
         out = None
         for line in p.stdout.splitlines()[::-1]:
             try:
